@@ -254,13 +254,13 @@ func NewEnv(r *rand.Rand, c Case) (*Env, string) {
 // runOn runs one tool lifetime on srv (whose state was prepared by the caller).
 // initial=true: first ever start (bookkeeping, full sync of an empty snapshot, then replay).
 func (e *Env) runOn(r *rand.Rand, srv *fakeredis.Server, startApps []fakeredis.App, depth int, initial bool) (*RunLog, string) {
-	return e.runOnStop(r, srv, startApps, depth, initial, 0, 0)
+	return e.runOnStop(r, srv, startApps, depth, initial, 0, 0, false)
 }
 
 // runOnStop: as runOn, but with stopAt > 0 the source goes silent after the command that ends at
 // absolute offset stopAt was delivered (a stalled source link), and after `linger` the tool is
 // stopped in the orderly way (context cancellation) instead of running to the sentinel.
-func (e *Env) runOnStop(r *rand.Rand, srv *fakeredis.Server, startApps []fakeredis.App, depth int, initial bool, stopAt int64, linger time.Duration) (*RunLog, string) {
+func (e *Env) runOnStop(r *rand.Rand, srv *fakeredis.Server, startApps []fakeredis.App, depth int, initial bool, stopAt int64, linger time.Duration, endOfStream bool) (*RunLog, string) {
 	ctx := context.Background()
 	l := &RunLog{Depth: depth, StartApps: startApps}
 	n0 := len(srv.Applied())
@@ -333,6 +333,20 @@ func (e *Env) runOnStop(r *rand.Rand, srv *fakeredis.Server, startApps []fakered
 		case <-time.After(60 * time.Second):
 			ar.Stop(10 * time.Second)
 			return nil, fmt.Sprintf("watchdog: stream up to the stop point not consumed (handed %d of %d bytes)", ar.F.Handed(), len(rest))
+		}
+		if endOfStream {
+			// the stream ends by itself (the reader the tool reads from is closed: a follower's
+			// leader stream, the cache reader of a stopped input): Send has to return on its own
+			ar.F.CloseEOF()
+			er, ok := ar.Wait(60 * time.Second)
+			if !ok {
+				ar.Stop(10 * time.Second)
+				return nil, "Send did not return after the stream ended"
+			}
+			l.SendErr = er
+			l.Note = "stream ended by itself"
+			finish()
+			return l, ""
 		}
 		er, ok := ar.Stop(60 * time.Second)
 		if !ok {
